@@ -114,6 +114,9 @@ func BFS[E any](c *Ctx, sys System[E], maxDepth int, prefix string) BFSStats {
 		st.Depth = depth
 		frontier = next
 	}
+	if len(frontier) > 0 && len(c.P.Samples) < 8 {
+		c.P.Samples = append(c.P.Samples, map[string]any{"history": prefix + histName(sys, frontier[len(frontier)/2]), "depth": st.Depth})
+	}
 	c.P.States += st.States
 	c.P.Transitions += st.Transitions
 	c.P.Traces += st.Transitions
